@@ -406,6 +406,12 @@ class Func:
                     elif rv[0] == "use":
                         kind = "use"
                         detail = rv[1]
+                        # a Result / Option built on several paths and returned through one local:
+                        # report the building sites instead of the join
+                        exp = self._expand_result_local(op_local(rv[1]), 0) if op_place(rv[1]) and len(op_place(rv[1])) == 1 else None
+                        if exp:
+                            out.extend(exp)
+                            continue
                     out.append({"bb": bi, "si": si, "kind": kind, "detail": detail, "at": s["sp"]["at"]})
             t = b["t"]
             if t["k"] == "call" and t["dest"] == [0]:
@@ -413,6 +419,30 @@ class Func:
                 name = c["def"] if c else "?"
                 kind = "residual" if name == FROM_RESIDUAL else "call:" + name
                 out.append({"bb": bi, "si": None, "kind": kind, "detail": c, "at": t["sp"]["at"]})
+        return out
+
+    def _expand_result_local(self, l, depth):
+        if l is None or depth > 4:
+            return None
+        out = []
+        ds = self.defs(l)
+        if not ds:
+            return None
+        for d in ds:
+            if d["kind"] != "assign":
+                return None
+            rv = d["rv"]
+            if rv[0] == "agg" and rv[1].get("k") == "adt" and rv[1].get("adt") in ("core::result::Result", "core::option::Option"):
+                var = rv[1]["variant"]
+                kind = {"Ok": "ok", "Err": "err", "Some": "some", "None": "none"}.get(var, "other")
+                out.append({"bb": d["bb"], "si": d.get("si"), "kind": kind, "detail": None, "at": d["at"]})
+            elif rv[0] == "use" and op_place(rv[1]) and len(op_place(rv[1])) == 1:
+                sub = self._expand_result_local(op_local(rv[1]), depth + 1)
+                if not sub:
+                    return None
+                out.extend(sub)
+            else:
+                return None
         return out
 
     def ok_exit_blocks(self, include_delegated=True):
